@@ -49,6 +49,8 @@ type scInput struct {
 	ES []string `json:"es,omitempty"`
 	RE []string   `json:"re,omitempty"` // lines of one exclusion file (the first)
 	RF [][]string `json:"rf,omitempty"` // further exclusion files: --exclusion-file given several times
+	LE []string   `json:"le,omitempty"` // how file i is written (le[i mod len]): nl | nonl | crlf | crlfnonl | blank | emptylast
+	SP bool       `json:"sp,omitempty"` // the seed arrives with URL.Parse() already called, as the sources (queue, HQ, --input-seeds) deliver it
 	W  []int    `json:"w,omitempty"`
 	T  *scNode  `json:"t"`
 }
@@ -120,14 +122,16 @@ type scTree struct {
 	seed  *models.Item
 	ids   map[*models.Item]int
 	orig  map[*models.Item]string // the raw URL text the node was created with
+	pre   map[*models.Item]*url.URL // preparsed seed: the parsed form it arrived with (NormalizeURL replaces it on success)
+	preOK bool
 	work  []*models.Item          // nodes at the working depth, pre-order
 	nnode int
 }
 
 // buildTree creates the real tree.  keep == nil: as specified; otherwise the raw URL of the
 // working-depth nodes whose index is not in keep is replaced by an unparsable one (warm-up run).
-func buildTree(root *scNode, keep map[int]bool) (*scTree, error) {
-	t := &scTree{ids: map[*models.Item]int{}, orig: map[*models.Item]string{}}
+func buildTree(root *scNode, keep map[int]bool, preparse bool) (*scTree, error) {
+	t := &scTree{ids: map[*models.Item]int{}, orig: map[*models.Item]string{}, pre: map[*models.Item]*url.URL{}}
 	D := specDepth(root)
 	widx := 0
 	var build func(n *scNode, parent *models.Item, from models.ItemState, depth int) error
@@ -154,7 +158,16 @@ func buildTree(root *scNode, keep map[int]bool) (*scTree, error) {
 			return err
 		}
 		if atWork {
-			return nil // Fresh, URL not parsed yet: what the postprocessor / the sources hand over
+			// Fresh.  Redirect targets and assets are handed over by the postprocessor with only Raw
+			// set; a seed comes from a source (local queue, HQ, --input-seeds), all of which call
+			// URL.Parse() first and drop the seed when that fails
+			if preparse && parent == nil {
+				if err := u.Parse(); err == nil {
+					t.pre[it] = u.GetParsed()
+					t.preOK = true
+				}
+			}
+			return nil
 		}
 		// inner node: was pre-processed in an earlier pass (parsed, String() computed)
 		if err := u.Parse(); err != nil {
@@ -182,7 +195,7 @@ func buildTree(root *scNode, keep map[int]bool) (*scTree, error) {
 		return nil, err
 	}
 	for _, w := range lvl {
-		if w.GetStatus() != models.ItemFresh || w.GetURL().GetParsed() != nil {
+		if w.GetStatus() != models.ItemFresh || w.GetURL().GetParsed() != t.pre[w] {
 			return nil, fmt.Errorf("node at the working depth is not fresh")
 		}
 	}
@@ -201,8 +214,15 @@ func (in *scIntern) id(s string) int {
 	return v
 }
 
+// normalised: NormalizeURL succeeded on this node (URL.Parse() installed a new parsed form); the
+// parsed form a seed arrived with does not count
+func (t *scTree) normalised(it *models.Item) bool {
+	p := it.GetURL().GetParsed()
+	return p != nil && p != t.pre[it]
+}
+
 func (t *scTree) urlID(in *scIntern, it *models.Item) int {
-	if it.GetURL().GetParsed() != nil {
+	if t.normalised(it) {
 		return in.id(it.GetURL().String())
 	}
 	return in.id(t.orig[it]) // not normalised: the text it was created with
@@ -229,6 +249,51 @@ func (in *scInput) files() [][]string {
 	return append(fs, in.RF...)
 }
 
+// renderFile writes the lines of one exclusion file in the given style
+func renderFile(lines []string, style string) string {
+	if len(lines) == 0 {
+		return ""
+	}
+	switch style {
+	case "nonl": // no newline after the last line
+		return strings.Join(lines, "\n")
+	case "crlf":
+		return strings.Join(lines, "\r\n") + "\r\n"
+	case "crlfnonl":
+		return strings.Join(lines, "\r\n")
+	case "blank": // a blank line between two lines: the empty expression
+		return strings.Join(lines, "\n\n") + "\n"
+	case "emptylast": // an empty last line
+		return strings.Join(lines, "\n") + "\n\n"
+	}
+	return strings.Join(lines, "\n") + "\n"
+}
+
+func (in *scInput) style(i int) string {
+	if len(in.LE) == 0 {
+		return "nl"
+	}
+	return in.LE[i%len(in.LE)]
+}
+
+// the driver's own reading of a file's content (independent of config's reader): cut at LF, drop
+// one trailing CR per piece, nothing after a final LF
+func ownLines(content string) []string {
+	if content == "" {
+		return nil
+	}
+	parts := strings.Split(content, "\n")
+	if parts[len(parts)-1] == "" {
+		parts = parts[:len(parts)-1]
+	}
+	for i := range parts {
+		parts[i] = strings.TrimSuffix(parts[i], "\r")
+	}
+	return parts
+}
+
+var scopeFileContents []string
+
 func regexBits(text string) string {
 	var bits []string
 	for _, re := range scopeOwnRegexes {
@@ -250,17 +315,16 @@ func installScopeConfig(in *scInput) error {
 	c.ExclusionRegexes = nil
 	c.ExclusionFile = nil
 	scopeOwnRegexes = nil
+	scopeFileContents = nil
 	for i, lines := range in.files() {
 		f := filepath.Join(scopeDir, fmt.Sprintf("exclusions%d.txt", i))
-		content := ""
-		if len(lines) > 0 {
-			content = strings.Join(lines, "\n") + "\n"
-		}
+		content := renderFile(lines, in.style(i))
 		if err := os.WriteFile(f, []byte(content), 0o644); err != nil {
 			return err
 		}
 		c.ExclusionFile = append(c.ExclusionFile, f)
-		for _, l := range lines {
+		scopeFileContents = append(scopeFileContents, content)
+		for _, l := range ownLines(content) {
 			re, err := regexp.Compile(l)
 			if err != nil {
 				return err
@@ -322,12 +386,12 @@ func execScope(input string) Result {
 		json.Unmarshal([]byte(scTrivial), &in)
 		tags = append(tags, "bad-input")
 	}
-	t, err := buildTree(in.T, nil)
+	t, err := buildTree(in.T, nil, in.SP)
 	if err != nil {
 		in = scInput{}
 		json.Unmarshal([]byte(scTrivial), &in)
 		tags = append(tags, "bad-input")
-		t, err = buildTree(in.T, nil)
+		t, err = buildTree(in.T, nil, in.SP)
 		must(err)
 	}
 	for _, f := range in.files() {
@@ -336,7 +400,7 @@ func execScope(input string) Result {
 				in = scInput{}
 				json.Unmarshal([]byte(scTrivial), &in)
 				tags = append(tags, "bad-input")
-				t, err = buildTree(in.T, nil)
+				t, err = buildTree(in.T, nil, in.SP)
 				must(err)
 			}
 		}
@@ -350,7 +414,7 @@ func execScope(input string) Result {
 		for _, i := range in.W {
 			keep[i] = true
 		}
-		if wt, err := buildTree(in.T, keep); err == nil {
+		if wt, err := buildTree(in.T, keep, in.SP); err == nil {
 			preprocessor.VerifScopePreprocess(wt.seed)
 		}
 		tags = append(tags, "warm-seen-store")
@@ -376,7 +440,7 @@ func execScope(input string) Result {
 		u := w.GetURL()
 		kinds["url:"+classifyRaw(t.orig[w])] = true
 		scopeTotals["nodes"]++
-		if u.GetParsed() == nil {
+		if !t.normalised(w) {
 			nvs = append(nvs, fmt.Sprintf("(%d, NVErr)", id))
 		} else {
 			href := u.Raw
@@ -415,7 +479,7 @@ func execScope(input string) Result {
 			nreq++
 			scopeTotals["request"]++
 			kinds["out:request"] = true
-		case u.GetParsed() == nil:
+		case !t.normalised(w):
 			nrej++
 			scopeTotals["normfail"]++
 			kinds["out:normalisation-failed"] = true
@@ -455,15 +519,13 @@ func execScope(input string) Result {
 	treeOut := t.coqTree(intern, t.seed)
 
 	cfg := fmt.Sprintf("(OC %s %s %s %s)", coqStrs(in.IH), coqStrs(in.IS), coqStrs(in.EH), coqStrs(in.ES))
-	var files, effRe []string
-	for _, f := range in.files() {
-		files = append(files, coqStrs(f))
-	}
+	var effRe []string
+	files := scopeFileContents
 	for _, re := range config.Get().ExclusionRegexes {
 		effRe = append(effRe, re.String())
 	}
 	nfiles, nlines := len(in.files()), len(scopeOwnRegexes)
-	term := fmt.Sprintf("SC %s %s %s %s\n (%s)\n %s %s %s %s\n (%s)\n %s", cfg, coqList(files), coqStrs(config.Get().ExcludeHosts), coqStrs(effRe), treeIn,
+	term := fmt.Sprintf("SC %s %s %s %s\n (%s)\n %s %s %s %s\n (%s)\n %s", cfg, coqStrs(files), coqStrs(config.Get().ExcludeHosts), coqStrs(effRe), treeIn,
 		coqList(nvs), coqList(seen), coqList(reqfail), coqBool(panicked != ""), treeOut, coqList(nodes))
 
 	if in.C != "" {
@@ -483,8 +545,23 @@ func execScope(input string) Result {
 			}
 		}
 	}
+	for i, f := range in.files() {
+		if len(f) > 0 {
+			kinds["exfile:"+in.style(i)] = true
+		}
+	}
+	if depth == 0 {
+		switch {
+		case t.preOK:
+			kinds["seedstate:preparsed"] = true
+		case in.SP:
+			kinds["seedstate:fresh(source-would-drop:Parse-error)"] = true
+		default:
+			kinds["seedstate:fresh"] = true
+		}
+	}
 	tags = append(tags, fmt.Sprintf("exclusion-files:%d", nfiles))
-	if nfiles >= 2 && nlines > len(in.files()[nfiles-1]) {
+	if nfiles >= 2 && nlines > len(ownLines(scopeFileContents[nfiles-1])) {
 		tags = append(tags, "exclusion-files:regex-outside-last-file")
 	}
 	tags = append(tags, fmt.Sprintf("depth:%d", depth), fmt.Sprintf("work-nodes:%d", bucket(len(t.work))))
@@ -527,6 +604,16 @@ func shrinkScope(input string) []string {
 	if len(in.W) > 0 {
 		v := in
 		v.W = nil
+		emit(v)
+	}
+	if len(in.LE) > 0 {
+		v := in
+		v.LE = nil
+		emit(v)
+	}
+	if in.SP {
+		v := in
+		v.SP = false
 		emit(v)
 	}
 	for _, f := range []*[]string{&in.IH, &in.IS, &in.EH, &in.ES, &in.RE} {
@@ -595,7 +682,7 @@ func init() {
 		Footer:   stdFooter,
 		Rule: "one case = one item tree (seed alone / redirect chains / assets, depth 0-3, consistent and a few inconsistent parents) whose nodes at the working depth carry raw URLs from a grammar " +
 			"(absolute, scheme-relative, path-absolute, path-relative, query/fragment-only, scheme-less, other schemes; hosts: plain, with port, userinfo, IDN/punycode, upper-case, percent-encoded, " +
-			"hosts containing the excluded strings, localhost/127.0.0.1 in several spellings, dot-less, IPv6; quotes, white space, backslashes) under one of 46 fixed filter configurations (string and host filters with upper-case letters included; about a fifth of the leaves are planted references that contain a filter string as typed or with other letter case) or a random one, the exclusion regexes spread over 0-3 real --exclusion-file files (empty files, duplicates across files); " +
+			"hosts containing the excluded strings, localhost/127.0.0.1 in several spellings, dot-less, IPv6; quotes, white space, backslashes) under one of 46 fixed filter configurations (string and host filters with upper-case letters included; about a fifth of the leaves are planted references that contain a filter string as typed or with other letter case) or a random one, the exclusion regexes spread over 0-3 real --exclusion-file files (empty files, duplicates across files; written with LF, CRLF, without final newline, with blank or empty last lines); a seed at the working depth arrives fresh or with URL.Parse() already called, as the sources deliver it; " +
 			"distinct by input text; non-trivial when at least one node got a request and at least one was rejected (normalisation or filters)",
 		Setup:    setupScope,
 		Gen:      genScope,
